@@ -2,7 +2,8 @@
 //   - every non-test file of package uu is copied with its "sync" / "sync/atomic" imports redirected to the scheduler shims;
 //   - a function that re-initialises every package-level variable of the file is appended to each copy, so that state added by a
 //     change (buffers, counters, caches) does not leak from one explored execution into the next;
-//   - uu/verif_hooks.go (VerifReset) calls those functions and installs the scripted source.
+//   - "math/rand", "math/rand/v2" and "crypto/rand" imports are redirected to scripted generators the harness controls;
+//   - uu/verif_hooks.go (VerifReset) calls those functions. Nothing depends on the names of unexported identifiers.
 //
 // usage: gen <work dir> <overlay json path>
 package main
@@ -26,6 +27,9 @@ const (
 	repoPkg  = "/repo/uu"
 	shimSync = "go.lstv.dev/util/verifsync"
 	shimAtom = "go.lstv.dev/util/verifsync/atomic"
+	shimRand = "go.lstv.dev/util/verifsync/rand"
+	shimRnd2 = "go.lstv.dev/util/verifsync/rand2"
+	shimCrnd = "go.lstv.dev/util/verifsync/crand"
 	overlayV = "/verif/overlay"
 )
 
@@ -43,7 +47,7 @@ func main() {
 	sort.Strings(files)
 	replace := map[string]string{}
 	var resetFuncs []string
-	usesSync, hasRandom, randomIsRand := false, false, false
+	bound := map[string]bool{} // which seams of the package under test the harness controls
 	for i, f := range files {
 		if strings.HasSuffix(f, "_test.go") {
 			continue
@@ -56,14 +60,20 @@ func main() {
 		for _, im := range af.Imports {
 			p, _ := strconv.Unquote(im.Path.Value)
 			switch p {
+			case "math/rand", "math/rand/v2", "crypto/rand":
+				bound[p] = true
+				im.Path.Value = strconv.Quote(map[string]string{"math/rand": shimRand, "math/rand/v2": shimRnd2, "crypto/rand": shimCrnd}[p])
+				if im.Name == nil {
+					im.Name = ast.NewIdent("rand")
+				}
 			case "sync":
-				usesSync = true
+				bound[p] = true
 				im.Path.Value = strconv.Quote(shimSync)
 				if im.Name == nil {
 					im.Name = ast.NewIdent("sync")
 				}
 			case "sync/atomic":
-				usesSync = true
+				bound[p] = true
 				im.Path.Value = strconv.Quote(shimAtom)
 				if im.Name == nil {
 					im.Name = ast.NewIdent("atomic")
@@ -81,15 +91,6 @@ func main() {
 				var names []string
 				for _, n := range vs.Names {
 					names = append(names, n.Name)
-					if n.Name == "random" {
-						hasRandom = true
-						if len(vs.Values) > 0 && strings.Contains(src(fset, vs.Values[0]), "rand.New(") {
-							randomIsRand = true
-						}
-						if vs.Type != nil && strings.Contains(src(fset, vs.Type), "rand.Rand") {
-							randomIsRand = true
-						}
-					}
 				}
 				switch {
 				case len(vs.Values) == len(vs.Names):
@@ -124,20 +125,17 @@ func main() {
 		}
 		replace[f] = dst
 	}
-	if !usesSync {
-		die("no file of package uu imports \"sync\" or \"sync/atomic\" any more (channels and other mechanisms are not intercepted)")
+	// No seam is required: a tree without synchronisation operations has a single schedule class under this scheduler (its
+	// unsynchronised accesses are the business of the free-running race pass), and a tree that draws its randomness from
+	// somewhere else is still judged on the IDs it returns. What was bound is reported in the evidence.
+	var seams []string
+	for p := range bound {
+		seams = append(seams, p)
 	}
-	if !hasRandom {
-		die("package uu has no package-level variable 'random' any more")
-	}
-	hooks := "//go:build verif\n\npackage uu\n\nimport \"math/rand\"\n\n// VerifReset re-initialises all package-level state of uu and installs a generator over the given source (harness seam, injected through -overlay only).\nfunc VerifReset(src rand.Source) {\n"
+	sort.Strings(seams)
+	hooks := "//go:build verif\n\npackage uu\n\n// VerifBinding lists the imports of this package that were redirected to the harness shims.\nconst VerifBinding = " + strconv.Quote(strings.Join(seams, ",")) + "\n\n// VerifReset re-initialises all package-level state of uu (harness seam, injected through -overlay only).\nfunc VerifReset() {\n"
 	for _, fn := range resetFuncs {
 		hooks += "\t" + fn + "()\n"
-	}
-	if randomIsRand {
-		hooks += "\trandom = rand.New(src)\n"
-	} else {
-		die("the package-level variable 'random' is no longer a *rand.Rand built with rand.New")
 	}
 	hooks += "}\n"
 	hp := filepath.Join(work, "uu", "verif_hooks.go")
@@ -146,7 +144,11 @@ func main() {
 	}
 	replace[repoPkg+"/verif_hooks.go"] = hp
 	replace["/repo/verifsync/sched.go"] = overlayV + "/verifsync/sched.go"
+	replace["/repo/verifsync/extra.go"] = overlayV + "/verifsync/extra.go"
 	replace["/repo/verifsync/atomic/atomic.go"] = overlayV + "/verifsync/atomic/atomic.go"
+	replace["/repo/verifsync/rand/rand.go"] = overlayV + "/verifsync/rand/rand.go"
+	replace["/repo/verifsync/rand2/rand.go"] = overlayV + "/verifsync/rand2/rand.go"
+	replace["/repo/verifsync/crand/rand.go"] = overlayV + "/verifsync/crand/rand.go"
 	b, _ := json.MarshalIndent(map[string]any{"Replace": replace}, "", " ")
 	if err := os.WriteFile(out, b, 0o644); err != nil {
 		die("%v", err)
